@@ -1,4 +1,5 @@
 #include "avtp/acf/Can.h"
+#include <string.h>
 #include "drivers.h"
 uint64_t drv_can_create(void *pdu, uint32_t id, uint8_t *payload, uint16_t len, int variant) {
     Avtp_Can_CreateAcfMessage((Avtp_Can_t *)pdu, id, payload, len, (Avtp_CanVariant_t)variant);
@@ -8,3 +9,21 @@ uint64_t drv_can_setpayload(void *pdu, uint8_t *payload, uint16_t len) { Avtp_Ca
 uint64_t drv_can_finalize(void *pdu, uint16_t len) { Avtp_Can_Finalize((Avtp_Can_t *)pdu, len); return 0; }
 uint64_t drv_can_payload_offset(void *pdu) { return (uint64_t)(Avtp_Can_GetPayload((Avtp_Can_t *)pdu) - (uint8_t *)pdu); }
 uint64_t drv_can_payload_length(void *pdu) { return Avtp_Can_GetCanPayloadLength((Avtp_Can_t *)pdu); }
+
+/* The same builder, run on a message object whose size the compiler knows and that is exactly as large as the
+ * message (header, payload, padding to the quadlet): the way an application with a fixed frame layout declares it.
+ * Returns 0 if there is no such object for this payload length. */
+#define DRV_FIXED(LEN) \
+    case LEN: { \
+        uint8_t tmp[AVTP_CAN_HEADER_LEN + ((LEN) + 3) / 4 * 4]; \
+        memcpy(tmp, pdu, sizeof tmp); \
+        Avtp_Can_CreateAcfMessage((Avtp_Can_t *)tmp, id, payload, LEN, (Avtp_CanVariant_t)variant); \
+        memcpy(pdu, tmp, sizeof tmp); \
+        return 1; \
+    }
+uint64_t drv_can_create_fixed(void *pdu, uint32_t id, uint8_t *payload, uint16_t len, int variant) {
+    switch (len) {
+        DRV_FIXED(0) DRV_FIXED(1) DRV_FIXED(3) DRV_FIXED(4) DRV_FIXED(5) DRV_FIXED(8) DRV_FIXED(12) DRV_FIXED(63) DRV_FIXED(64)
+    default: return 0;
+    }
+}
